@@ -13,13 +13,13 @@ MUTATOR_METHODS = {
 # numpy functions with an out= / in-place first argument
 INPLACE_FUNCS = {"np.fill_diagonal", "np.put", "np.place", "np.copyto", "np.random.shuffle", "random.shuffle",
                  "np.putmask", "np.add.at"}
-COPY_METHODS = {"copy", "flatten", "astype", "tolist", "to_numpy", "toarray", "todense", "tocsc", "tocsr", "__deepcopy__"}
+COPY_METHODS = {"copy", "flatten", "astype", "tolist", "toarray", "todense", "tocsc", "tocsr", "__deepcopy__"}
 COPY_FUNCS = {"copy", "deepcopy", "np.copy", "np.array", "list", "dict", "set", "tuple", "np.zeros", "np.ones",
               "np.empty", "np.zeros_like", "np.ones_like", "np.empty_like", "np.hstack", "np.vstack", "np.concatenate",
               "np.repeat", "np.tile", "np.diag", "np.eye", "np.linspace", "np.arange", "np.exp", "np.log", "np.sqrt",
               "np.abs", "np.maximum", "np.minimum", "np.sum", "np.mean", "np.linalg.norm", "float", "int", "str", "len",
               "np.random.randn", "np.random.rand", "np.random.normal", "np.random.standard_normal"}
-VIEW_METHODS = {"reshape", "ravel", "view", "squeeze", "transpose", "swapaxes", "T"}
+VIEW_METHODS = {"reshape", "ravel", "view", "squeeze", "transpose", "swapaxes", "T", "to_numpy"}   # CUQIarray.to_numpy is self.view(np.ndarray)
 VIEW_FUNCS = {"np.asarray", "np.reshape", "np.ravel", "np.squeeze", "np.transpose", "np.atleast_1d", "np.atleast_2d",
               "np.asanyarray", "np.ascontiguousarray"}
 
